@@ -212,21 +212,36 @@ func init() {
 		if x.c != nil {
 			return x.c.BitLen()
 		}
-		// abstraction exact for comparisons against the listed thresholds (all the repository uses)
+		// exact: ite chain over the powers of two up to the value's known range
 		f := i.tf
-		i.stub("big.Int.BitLen on symbolic value: exact only for thresholds " + fmt.Sprint(bitLenThresholds))
-		bl := i.fresh("bitlen", sortInt)
-		bl.lo, bl.hi = big.NewInt(0), big.NewInt(1<<20)
-		ax := f.Bool(true)
 		a := f.IAbs(x.t)
-		for _, k := range bitLenThresholds {
-			pow := new(big.Int).Lsh(big.NewInt(1), uint(k))
-			ax = f.And(ax, f.Eq(f.ICmp(OILt, a, f.IntB(pow)), f.mk(OILe, sortBool, bl, f.Int(int64(k)))))
+		maxBits := 320
+		exact := false
+		if lo, hi := irange(x.t); lo != nil {
+			m := new(big.Int).Abs(lo)
+			if h := new(big.Int).Abs(hi); h.Cmp(m) > 0 {
+				m = h
+			}
+			maxBits, exact = m.BitLen(), true
 		}
-		ax = f.And(ax, f.mk(OILe, sortBool, f.Int(0), bl))
-		i.addPC(ax)
-		i.path.invalidateModel()
-		return bl
+		var r *Term
+		if exact {
+			r = f.Int(int64(maxBits))
+		} else {
+			i.stub(fmt.Sprintf("big.Int.BitLen of a value with unknown range: exact up to %d bits, arbitrary above", maxBits))
+			top := i.fresh("bitlen", sortInt)
+			i.addPC(f.mk(OILe, sortBool, f.Int(int64(maxBits+1)), top))
+			r = top
+			maxBits++
+		}
+		for k := maxBits - 1; k >= 0; k-- {
+			pow := new(big.Int).Lsh(big.NewInt(1), uint(k))
+			r = f.Ite(f.ICmp(OILt, a, f.IntB(pow)), f.Int(int64(k)), r)
+		}
+		if r.sort.K == SInt && r.lo == nil {
+			r.lo, r.hi = big.NewInt(0), big.NewInt(int64(maxBits+1))
+		}
+		return r
 	})
 	regSimple(B+"SetInt64", func(fr *frame, args []value) value {
 		i := fr.i
